@@ -1,7 +1,7 @@
 (* C10 -- Removing rows leaves no references to them.
    Statements only; proofs are in Proofs/RefIndex_proofs.v and Proofs/RefIndex_removal.v.  The model
    (Model/RefIndex.v) is hand-written and compared with the running code on every run (harness/props/c10.py). *)
-From Coq Require Import ZArith List Bool Arith.
+From Coq Require Import ZArith List Bool Arith Lia.
 Import ListNotations.
 Require Import Grist.Model.RefIndex Grist.Proofs.RefIndex_proofs Grist.Proofs.RefIndex_removal.
 
@@ -107,12 +107,51 @@ Proof.
   - eexists. split; [vm_compute; reflexivity|]. vm_compute. reflexivity.
 Qed.
 
+(* The property quantifies over removal "by any means".  ReplaceTableData removes the rows that are not in its id
+   list and does NOT run the cleanup: in a world satisfying all the hypotheses of C10_removal, replacing the data
+   of T (rows 1,2) by row 2 alone leaves the Ref and the RefList of another table pointing at row 1. *)
+Definition rep_ref : res refcol := run (fun _ => None) KRef [OSet 1 (CInt 1)].
+Definition rep_rl : res refcol := run (fun _ => None) KRefList [OSet 1 (CList [2; 1]%Z)].
+
+Theorem C10_refuted_replace_table_data : exists c1 c2 wd',
+  rep_ref = Ok c1 /\ rep_rl = Ok c2 /\
+  let wd := {| wd_rows := [1; 2];
+               wd_cols := [{| w_col := c1; w_rows := [1]; w_own := false; w_back := true |};
+                           {| w_col := c2; w_rows := [1]; w_own := false; w_back := true |}] |} in
+  world_ok wd /\ replace_table_data (fun _ => None) wd [2] [] = Ok wd' /\ wd_rows wd' = [2] /\
+  map (fun w => refs (w_col w) 1) (wd_cols wd') = [[1%Z]; [2%Z; 1%Z]].
+Proof.
+  eexists. eexists. eexists.
+  split; [vm_compute; reflexivity|]. split; [vm_compute; reflexivity|]. cbv zeta.
+  split; [|split; [vm_compute; reflexivity|split; vm_compute; reflexivity]].
+  unfold world_ok. cbn [wd_rows wd_cols].
+  apply Forall_cons; [split|apply Forall_cons; [split|apply Forall_nil]]; cbn [w_col w_rows w_own col_rows].
+  - match goal with
+    | |- inv_ok ?c => exact (proj1 (run_inv_ok (fun _ => None) KRef [OSet 1 (CInt 1)] c eq_refl
+                                      ltac:(vm_compute; reflexivity)))
+    end.
+  - intros r. do 2 (destruct r as [|r]; [vm_compute; intuition congruence|]).
+    intros H; exfalso; apply H; apply refs_overflow; cbn [rc_data length]; lia.
+  - match goal with
+    | |- inv_ok ?c => exact (proj1 (run_inv_ok (fun _ => None) KRefList [OSet 1 (CList [2; 1]%Z)] c eq_refl
+                                      ltac:(vm_compute; reflexivity)))
+    end.
+  - intros r. do 2 (destruct r as [|r]; [vm_compute; intuition congruence|]).
+    intros H; exfalso; apply H; apply refs_overflow; cbn [rc_data length]; lia.
+Qed.
+
 (* Non-vacuity: a world with a Ref column and a RefList column pointing at T (rows 1..3) and a self-reference of T;
    removing rows 1 and 3 filters [1;2;3;2] to [2;2], resets the Ref to 1, empties [3] to None. *)
 Definition ex_ref : res refcol := run (fun _ => None) KRef [OSet 1 (CInt 1); OSet 2 (CInt 2); OSet 4 (CStr [97%Z])].
 Definition ex_rl : res refcol :=
   run (fun _ => None) KRefList [OSet 1 (CList [1; 2; 3; 2]%Z); OSet 2 (CList [3%Z]); OSet 3 (CList [2%Z])].
 Definition ex_self : res refcol := run (fun _ => None) KRef [OSet 1 (CInt 3); OSet 2 (CInt 1); OSet 3 (CInt 2)].
+
+Ltac from_run k ops :=
+  match goal with
+  | |- inv_ok ?c => exact (proj1 (run_inv_ok (fun _ => None) k ops c eq_refl ltac:(vm_compute; reflexivity)))
+  end.
+Ltac past_end := intros H; exfalso; apply H; apply refs_overflow; cbn [rc_data length]; lia.
 
 Example C10_nonvacuous : exists c1 c2 c3 wd',
   ex_ref = Ok c1 /\ ex_rl = Ok c2 /\ ex_self = Ok c3 /\
@@ -132,11 +171,10 @@ Proof.
   unfold world_ok. cbn [wd_rows wd_cols].
   apply Forall_cons; [split|apply Forall_cons; [split|apply Forall_cons; [split|apply Forall_nil]]];
     cbn [w_col w_rows w_own col_rows].
-  - apply (run_inv_ok (fun _ => None) KRef [OSet 1 (CInt 1); OSet 2 (CInt 2); OSet 4 (CStr [97%Z])]); reflexivity.
-  - intros r. do 5 (destruct r as [|r]; [vm_compute; intuition congruence|]). vm_compute. destruct r; congruence.
-  - apply (run_inv_ok (fun _ => None) KRefList
-             [OSet 1 (CList [1; 2; 3; 2]%Z); OSet 2 (CList [3%Z]); OSet 3 (CList [2%Z])]); reflexivity.
-  - intros r. do 4 (destruct r as [|r]; [vm_compute; intuition congruence|]). vm_compute. destruct r; congruence.
-  - apply (run_inv_ok (fun _ => None) KRef [OSet 1 (CInt 3); OSet 2 (CInt 1); OSet 3 (CInt 2)]); reflexivity.
-  - intros r. do 4 (destruct r as [|r]; [vm_compute; intuition congruence|]). vm_compute. destruct r; congruence.
+  - from_run KRef [OSet 1 (CInt 1); OSet 2 (CInt 2); OSet 4 (CStr [97%Z])].
+  - intros r. do 5 (destruct r as [|r]; [vm_compute; intuition congruence|]). past_end.
+  - from_run KRefList [OSet 1 (CList [1; 2; 3; 2]%Z); OSet 2 (CList [3%Z]); OSet 3 (CList [2%Z])].
+  - intros r. do 4 (destruct r as [|r]; [vm_compute; intuition congruence|]). past_end.
+  - from_run KRef [OSet 1 (CInt 3); OSet 2 (CInt 1); OSet 3 (CInt 2)].
+  - intros r. do 4 (destruct r as [|r]; [vm_compute; intuition congruence|]). past_end.
 Qed.
